@@ -165,7 +165,7 @@ def _eval_walk(c, rec):
     tres = np.asarray(m.reserv.Tresoutput.value, dtype=float)
     if tres.size and not abs(tres[0] - trock) <= 1e-6:
         rec.violation('tres_does_not_start_at_bht', case, {'Tres0': float(tres[0]), 'Trock': trock}, model=c['model'])
-    tinj = float(m.wellbores.Tinj.value)
+    tinj = float(m.wellbores.Tinj.value)  # after Reservoir.Calculate: already includes the injection-wellbore temperature gain
     if c['model'] in ('3', '4') and tres.size and not trock > tinj:
         rec.count('walk_injection_not_below_bht_bound_clause_skipped')
     if c['model'] in ('3', '4') and tres.size and trock > tinj:
@@ -257,7 +257,10 @@ def _eval_run(case, rec):
                 bad('redrilling_count', {'reported': R, 'from_closed_form': want_R, 'first_index_below_limit': first, 'n': n})
             elif R > 0 and not np.allclose(tp, np.tile(untiled[:first], R + 1)[:n], rtol=1e-12, atol=1e-9):
                 bad('restart_period', {'period_found': period, 'first_index_below_limit': first})
-    heating = not trock > max(tinj_final, tinj_in0)
+    # the reservoir models are handed the injection temperature plus the injection-wellbore temperature gain: that is the
+    # water which enters the rock
+    gain = float(wb['tempgaininj'].value or 0.0)
+    heating = not trock > max(tinj_final, tinj_in0 + max(gain, 0.0), tinj_in0)
     if heating:
         rec.count('run_injection_not_below_bht_bound_clause_skipped')
     if model in (3, 4) and not heating:
